@@ -329,6 +329,23 @@ def attach_observers(ctx, run):
 
 
 def run_case(ctx, case):
+    fs = case.get("filter") or {}
+    if gen.HOLDING_FILTER in (fs.get("names") or []):
+        # a user filter that answers [] for a non-empty list: the library may serve it (then
+        # every answer is judged) or refuse it outright with an error when it empties the list
+        from job_shop_lib.exceptions import JobShopLibError
+        try:
+            return _run_case(ctx, case)
+        except JobShopLibError as e:
+            if "filter" in str(e).lower() or "empty" in str(e).lower():
+                ctx.count("library_refused_an_emptying_user_filter")
+                ctx.note_case(case, False)
+                return
+            raise
+    return _run_case(ctx, case)
+
+
+def _run_case(ctx, case):
     from job_shop_lib.dispatching import UnscheduledOperationsObserver
 
     rng = random.Random(case["seed"])
